@@ -130,6 +130,35 @@ func (r *run) await(done <-chan outcome) awaited {
 		}
 		r.closeOnce(3, r.outRelease)
 	}
+	if r.p.hasKind(kHeld) && r.p.Kind != kOutlive {
+		// a function that stays inside until the call has returned: released then; if the call provably
+		// waits for it (ForEach / FinishVoid wait for their mappers, a clean MapReduce waits for all of
+		// them) nothing changes any more and it is released - a change of schedule, never a verdict
+		t := time.NewTimer(watchdog)
+		select {
+		case o := <-done:
+			t.Stop()
+			r.closeOnce(3, r.outRelease)
+			return awaited{waitRes: waitRes{o: o, returned: true}}
+		case <-r.outReached:
+			t.Stop()
+			w := r.waitQuiet(done, pollEvery/4)
+			if w.returned {
+				r.c.Obs("held_function_released_after_call_returned", 1)
+				if r.p.API == apiFinish {
+					r.c.Obs("finish_returned_while_a_sibling_function_was_still_inside", 1)
+				}
+				r.closeOnce(3, r.outRelease)
+				return awaited{waitRes: w}
+			}
+			r.c.Obs("held_function_released_because_call_waits_for_it", 1)
+			if r.p.API == apiFinish && len(r.cancelsCopy()) > 0 {
+				r.c.Obs("finish_with_a_failed_function_waited_for_a_sibling_still_inside", 1)
+			}
+		case <-t.C:
+		}
+		r.closeOnce(3, r.outRelease)
+	}
 	w := r.waitQuiet(done, pollEvery/4)
 	if w.returned {
 		return awaited{waitRes: w}
